@@ -459,9 +459,13 @@ func BuildStack(s *Sim, p *Plan) (*Stack, error) {
 	}
 
 	// health checker (existing seam: injected HTTP client)
-	st.hcClient = &http.Client{Timeout: health.DefaultHealthCheckerTimeout, Transport: &http.Transport{
-		MaxIdleConns: 10, MaxIdleConnsPerHost: 2, IdleConnTimeout: 30 * time.Second,
-		DialContext: s.Dialer("hc", "10.0.0.1", 0)}}
+	// the shipped default client (time-outs, pooling) with only its dialer replaced by the simulated network
+	st.hcClient = health.DefaultHTTPClient()
+	if tr, ok := st.hcClient.Transport.(*http.Transport); ok {
+		tr.DialContext = s.Dialer("hc", "10.0.0.1", 0)
+	} else {
+		return nil, fmt.Errorf("health.DefaultHTTPClient: transport is %T, cannot install the simulated dialer", st.hcClient.Transport)
+	}
 	st.HC = health.NewHTTPHealthChecker(repoHC, lg, st.hcClient)
 
 	if p.Stack.SeedHealthy {
